@@ -125,18 +125,184 @@ theorem shootGrpcScenario_length (scn : String) (steps : List GrpcStep) :
       | err => simp [stepGrpc, ho]
       | panic => simp [stepGrpc, ho]
 
+/-- no postprocessor of the scenario panics (that is property C19) -/
+def NoPanic (steps : List Step) : Prop := ∀ s ∈ steps, ∀ st, s.outcome ≠ .received st .panic
+
+theorem shootScenario_reports (scn : String) (steps : List Step) (hp : NoPanic steps) :
+    (shootScenario scn steps).reports = ((steps.take (executedSteps steps)).map (stepSample scn)) ∧
+    (shootScenario scn steps).panicked = false := by
+  induction steps with
+  | nil => simp [shootScenario, executedSteps]
+  | cons s rest ih =>
+    have ih' := ih (fun t ht => hp t (List.mem_cons_of_mem _ ht))
+    have hs := hp s (List.mem_cons_self ..)
+    unfold shootScenario executedSteps
+    cases ho : s.outcome with
+    | prepErr => simp [stepHttp, ho, stepSample]
+    | doErr e => simp [stepHttp, ho, stepSample]
+    | bodyErr st e => simp [stepHttp, ho, stepSample]
+    | received st post =>
+      cases post with
+      | ok =>
+        have : 1 + executedSteps rest = executedSteps rest + 1 := by omega
+        simp [stepHttp, ho, stepSample, ih'.1, ih'.2, this]
+      | err => simp [stepHttp, ho, stepSample]
+      | panic => exact absurd ho (hs st)
+
+theorem shootGrpcScenario_reports (scn : String) (steps : List GrpcStep) :
+    (shootGrpcScenario scn steps).reports = ((steps.take (executedGrpcSteps steps)).map (grpcStepSample scn)) := by
+  induction steps with
+  | nil => simp [shootGrpcScenario, executedGrpcSteps]
+  | cons s rest ih =>
+    unfold shootGrpcScenario executedGrpcSteps
+    cases ho : s.outcome with
+    | prepErr => simp [stepGrpc, ho, grpcStepSample]
+    | unknownMethod => simp [stepGrpc, ho, grpcStepSample]
+    | badPayload => simp [stepGrpc, ho, grpcStepSample]
+    | invoked c post =>
+      cases post with
+      | ok =>
+        have : 1 + executedGrpcSteps rest = executedGrpcSteps rest + 1 := by omega
+        simp [stepGrpc, ho, grpcStepSample, ih, this]
+      | err => simp [stepGrpc, ho, grpcStepSample]
+      | panic => simp [stepGrpc, ho, grpcStepSample]
+
+theorem executedSteps_le (steps : List Step) : executedSteps steps ≤ steps.length := by
+  induction steps with
+  | nil => simp [executedSteps]
+  | cons s rest ih =>
+    unfold executedSteps
+    split <;> simp <;> omega
+
+/-- every executed step but the last one passed -/
+theorem executed_prefix_passed (steps : List Step) (i : Nat) (h : i + 1 < executedSteps steps) :
+    ∃ s st, steps[i]? = some s ∧ s.outcome = .received st .ok := by
+  induction steps generalizing i with
+  | nil => simp [executedSteps] at h
+  | cons s rest ih =>
+    unfold executedSteps at h
+    cases ho : s.outcome with
+    | received st post =>
+      cases post with
+      | ok =>
+        simp [ho] at h
+        cases i with
+        | zero => exact ⟨s, st, by simp, ho⟩
+        | succ j =>
+          obtain ⟨s', st', h1, h2⟩ := ih j (by omega)
+          exact ⟨s', st', by simpa using h1, h2⟩
+      | err => simp [ho] at h
+      | panic => simp [ho] at h
+    | prepErr => simp [ho] at h
+    | doErr e => simp [ho] at h
+    | bodyErr st e => simp [ho] at h
+
+/-! ### tags are never empty on the http guns -/
+
+theorem addTag_ne_empty (a b : String) (hb : b ≠ "") : addTag a b ≠ "" := by
+  unfold addTag
+  split
+  · exact hb
+  · intro h
+    have := congrArg String.length h
+    simp [String.length_append] at this
+
+theorem emptyTag_ne : Model.C10.emptyTag ≠ "" := by decide
+
+theorem httpTag_ne_empty (cfg : AutoTagCfg) (t p : String) : httpTag cfg t p ≠ "" := by
+  unfold httpTag
+  generalize (if (cfg.enabled && (!cfg.noTagOnly || decide (t = ""))) = true then addTag t (autotag cfg.uriElements p) else t) = t1
+  simp only
+  by_cases h : t1 = ""
+  · simp only [h, if_true]; exact addTag_ne_empty _ _ emptyTag_ne
+  · simp only [h, if_false]; exact h
+
+theorem stepTag_ne_empty (a b : String) : stepTag a b ≠ "" := by
+  intro h
+  have := congrArg String.length h
+  simp [stepTag, String.length_append] at this
+
 /-! ### ids -/
 
 theorem runIds_snd {ι : Type} (c : Nat) (sched : List ι) :
-    (runIds c sched).map Prod.snd = List.range' (c + 1) sched.length := by
+    (runIds c sched).map Prod.snd = (List.range' 1 sched.length).map (fun k => (c + k) % idModulus) := by
   induction sched generalizing c with
   | nil => simp [runIds]
-  | cons i rest ih => simp [runIds, nextID, ih, List.range'_succ]
+  | cons i rest ih =>
+    simp only [runIds, nextID, List.map_cons, List.length_cons, ih]
+    rw [List.range'_succ, List.map_cons]
+    congr 1
+    rw [← List.map_add_range' (a := 1), List.map_map]
+    apply List.map_congr_left
+    intro k _
+    simp only [Function.comp, idModulus]
+    omega
 
 theorem runIds_fst {ι : Type} (c : Nat) (sched : List ι) :
     (runIds c sched).map Prod.fst = sched := by
   induction sched generalizing c with
   | nil => simp [runIds]
   | cons i rest ih => simp [runIds, ih]
+
+/-- fewer than 2^64 consecutive values of a 64-bit counter are pairwise distinct -/
+theorem ids_nodup (c n : Nat) (h : n ≤ idModulus) :
+    ((List.range' 1 n).map (fun k => (c + k) % idModulus)).Nodup := by
+  rw [List.Nodup, List.pairwise_map]
+  have hp : (List.range' 1 n).Pairwise (· < ·) := List.pairwise_lt_range'
+  refine List.Pairwise.imp_of_mem ?_ hp
+  intro a b ha hb hab
+  simp only [List.mem_range'_1] at ha hb
+  simp only [idModulus] at h ⊢
+  omega
+
+theorem ids_small (c n : Nat) (h : c + n < idModulus) :
+    (List.range' 1 n).map (fun k => (c + k) % idModulus) = List.range' (c + 1) n := by
+  rw [← List.map_add_range' (a := c)]
+  apply List.map_congr_left
+  intro k hk
+  simp only [List.mem_range'_1] at hk
+  simp only [idModulus] at h ⊢
+  rw [Nat.mod_eq_of_lt (by omega)]
+
+theorem wrap_general (m : Nat) (hm : 1 < m) : ¬ ((List.range' 1 (m + 1)).map (fun k => (0 + k) % m)).Nodup := by
+  intro h
+  rw [List.Nodup, List.pairwise_iff_getElem] at h
+  have := h 0 m (by simp) (by simp) (by omega)
+  simp at this
+
+/-- after 2^64 acquisitions the counter has wrapped and the first id is handed out again -/
+theorem ids_wrap {ι : Type} (sched : List ι) (h : sched.length = idModulus + 1) :
+    ¬ ((runIds 0 sched).map Prod.snd).Nodup := by
+  rw [runIds_snd, h]
+  exact wrap_general idModulus (by unfold idModulus; omega)
+
+/-- the http gun reports exactly one sample and it carries the ammo's id -/
+theorem shootHttp_one (cfg : AutoTagCfg) (s : HttpShot) (hc : s.connectHook = none) :
+    ∃ r, (shootHttp cfg s).reports = [r] ∧ r.id = s.id := by
+  unfold shootHttp
+  rw [hc]
+  by_cases hi : s.invalid = true
+  · simp [hi]
+  · simp only [hi]
+    cases s.outcome with
+    | doErr e => simp
+    | response st b => cases b <;> simp
+    | doPanic => simp
+
+theorem runPool_ids {ι : Type} (cfg : AutoTagCfg) (c : Nat) (plans : List (ι × ShotPlan)) :
+    (runPool cfg c plans).map (·.id) = (List.range' 1 plans.length).map (fun k => (c + k) % idModulus) := by
+  induction plans generalizing c with
+  | nil => simp [runPool]
+  | cons ip rest ih =>
+    obtain ⟨i, p⟩ := ip
+    obtain ⟨r, hr, hid⟩ := shootHttp_one cfg (p.toShot (nextID c).2) rfl
+    simp only [runPool, hr, List.cons_append, List.nil_append, List.map_cons, hid, ih, List.length_cons]
+    rw [List.range'_succ, List.map_cons]
+    congr 1
+    rw [← List.map_add_range' (a := 1), List.map_map]
+    apply List.map_congr_left
+    intro k _
+    simp only [Function.comp, idModulus, nextID]
+    omega
 
 end Pandora.Proofs.C10
